@@ -1,0 +1,32 @@
+//go:build verif
+
+package extgrpc
+
+// Contracts for the deductive verifier in /verif (comment-only file; see /verif/DESIGN.md).
+
+//@ type withGrpcCode invariant self.cause != nil
+//@ method (*withGrpcCode).Error
+//@   props C10
+//@   ensures result == msg(self.cause)
+//@ method (*withGrpcCode).Cause
+//@   props C07 C10 C14
+//@   ensures result == self.cause
+//@ method (*withGrpcCode).Unwrap
+//@   props C07 C10 C14
+//@   ensures result == self.cause
+
+//@ func WrapWithGrpcCode
+//@   props C10 C07 C20
+//@   ensures err == nil ==> result == nil
+//@   ensures err != nil ==> typeis(result, *withGrpcCode) && result.(*withGrpcCode).cause == err && result.(*withGrpcCode).code == code
+
+//@ func encodeWithGrpcCode
+//@   props C01 C11
+//@   requires typeis(err, *withGrpcCode)
+//@   ensures result0 == "" && len(result1) == 1
+//@   ensures typeis(result2, *EncodedGrpcCode) && result2.(*EncodedGrpcCode).Code == err.(*withGrpcCode).code
+
+//@ func decodeWithGrpcCode
+//@   props C05 C01 C11
+//@   requires cause != nil
+//@   ensures typeis(payload, *EncodedGrpcCode) ==> typeis(result, *withGrpcCode) && result.(*withGrpcCode).cause == cause && result.(*withGrpcCode).code == payload.(*EncodedGrpcCode).Code
